@@ -3,6 +3,7 @@ package main
 import (
 	"fmt"
 	"go/ast"
+	"go/token"
 	"go/types"
 	"strings"
 
@@ -69,21 +70,35 @@ func runC20(c *Ctx) {
 		} else if w, found := f.PathToExitAvoiding(appends[0], isSort); found {
 			r.Fail("order/sorted-descending", key, f.PosOf(appends[0]), "after appending a worker a path returns without re-sorting the shutdown-order list", w...)
 		} else {
-			// comparator
+			// comparator (of the sort call that follows the append, wherever it is written)
 			cmp := ""
-			fd := p.FuncDecl(pkg, "OrderedDaemon", "BackgroundWorker")
-			ast.Inspect(fd.Body, func(n ast.Node) bool {
-				if cl, ok := n.(*ast.CallExpr); ok && isSort(cl) {
-					if lit, ok := cl.Args[1].(*ast.FuncLit); ok && len(lit.Body.List) == 1 {
-						if rs, ok := lit.Body.List[0].(*ast.ReturnStmt); ok && len(rs.Results) == 1 {
-							if rel, ok := relOf(rs.Results[0]); ok {
-								cmp = rel.String()
-							}
+			for _, spt := range f.Find(isSort) {
+				var cl *ast.CallExpr
+				inspectNoLit(f.nodeAt(spt), func(n ast.Node) bool {
+					if c, ok := n.(*ast.CallExpr); ok && isSort(c) {
+						cl = c
+					}
+					return true
+				})
+				if cl == nil {
+					continue
+				}
+				if lit, ok := ast.Unparen(cl.Args[1]).(*ast.FuncLit); ok && len(lit.Body.List) == 1 {
+					var names []string
+					for _, fl := range lit.Type.Params.List {
+						for _, nm := range fl.Names {
+							names = append(names, nm.Name)
+						}
+					}
+					if rs, ok := lit.Body.List[0].(*ast.ReturnStmt); ok && len(rs.Results) == 1 && len(names) == 2 {
+						if rel, ok := relOf(rs.Results[0]); ok {
+							// rename the index parameters to i, j
+							ren := strings.NewReplacer("["+names[0]+"]", "[i]", "["+names[1]+"]", "[j]")
+							cmp = Rel{ren.Replace(rel.L), rel.Op, ren.Replace(rel.R)}.String()
 						}
 					}
 				}
-				return true
-			})
+			}
 			// descending: less(i,j) = order[i] > order[j]  <=>  order[j] < order[i]
 			if strings.Contains(cmp, "[j]].shutdownOrder < ") && strings.HasSuffix(cmp, "[i]].shutdownOrder") {
 				r.Pass("order/sorted-descending", key, f.PosOf(appends[0]), "append is followed by sort.Slice with less(i,j) = order[i] > order[j]")
@@ -108,7 +123,24 @@ func runC20(c *Ctx) {
 			ix, ok := ast.Unparen(as.Lhs[0]).(*ast.IndexExpr)
 			return ok && fieldSel(info, ix.X, "wgPerSameShutdownOrder")
 		}
-		present, _ := f.CondEdges(func(e ast.Expr) bool { return exprKey(e) == "ok" })
+		// "the order has a WaitGroup already": the comma-ok result of indexing wgPerSameShutdownOrder
+		okVars := map[types.Object]bool{}
+		for _, d := range p.AllFuncDecls(pkg) {
+			if d.Body == nil {
+				continue
+			}
+			ast.Inspect(d.Body, func(n ast.Node) bool {
+				if as, ok := n.(*ast.AssignStmt); ok && len(as.Lhs) == 2 && len(as.Rhs) == 1 {
+					if ix, ok := ast.Unparen(as.Rhs[0]).(*ast.IndexExpr); ok && fieldSel(info, ix.X, "wgPerSameShutdownOrder") {
+						if o := objOfIdent(info, as.Lhs[1]); o != nil {
+							okVars[o] = true
+						}
+					}
+				}
+				return true
+			})
+		}
+		present, _ := f.CondEdges(func(e ast.Expr) bool { o := objOfIdent(info, e); return o != nil && okVars[o] })
 		pe := map[Edge]bool{}
 		for _, e := range present {
 			pe[e] = true
@@ -375,20 +407,23 @@ func runC20(c *Ctx) {
 	fdRun := p.FuncDecl(pkg, "OrderedDaemon", "runBackgroundWorker")
 	checkGoWaitGroup(r, p, "wg/add-before-go", pkg, fdRun, 1)
 	if fdRun != nil {
-		var lit *ast.FuncLit
+		// the body of the spawned goroutine: a literal, or a named function / method of the package
+		var litBody *ast.BlockStmt
+		var litPos token.Pos
 		ast.Inspect(fdRun.Body, func(n ast.Node) bool {
 			if gs, ok := n.(*ast.GoStmt); ok {
-				if l, ok := gs.Call.Fun.(*ast.FuncLit); ok {
-					lit = l
+				if b, pos := callableBody(p, info, gs.Call.Fun); b != nil {
+					litBody, litPos = b, pos
 				}
 			}
 			return true
 		})
 		key := pkg + ".OrderedDaemon.runBackgroundWorker goroutine"
-		if lit == nil {
-			r.Fail("worker/done-cleanup-order", key, p.posStr(fdRun.Pos()), "no goroutine literal")
+		lit := struct{ pos token.Pos }{litPos}
+		if litBody == nil {
+			r.Fail("worker/done-cleanup-order", key, p.posStr(fdRun.Pos()), "no goroutine body found")
 		} else {
-			lf := newFuncCFG(p, info, lit.Body, key)
+			lf := newFuncCFG(p, info, litBody, key)
 			find1 := func(pred func(ast.Node) bool) (Point, bool) {
 				pts := lf.Find(pred)
 				if len(pts) != 1 {
@@ -396,7 +431,15 @@ func runC20(c *Ctx) {
 				}
 				return pts[0], true
 			}
-			run, ok1 := find1(callSuffix("backgroundWorker"))
+			// the worker function: a call of a value of type WorkerFunc
+			run, ok1 := find1(func(n ast.Node) bool {
+				cl, ok := n.(*ast.CallExpr)
+				if !ok {
+					return false
+				}
+				t := info.TypeOf(cl.Fun)
+				return t != nil && strings.HasSuffix(t.String(), ".WorkerFunc")
+			})
 			done, ok2 := find1(callSuffix(".Done"))
 			clean, ok3 := find1(callSuffix(".cleanupWorker"))
 			clr, ok4 := find1(func(n ast.Node) bool {
@@ -404,7 +447,7 @@ func runC20(c *Ctx) {
 				return ok && strings.HasSuffix(exprKey(cl.Fun), ".running.Store") && exprKey(cl.Args[0]) == "false"
 			})
 			if !(ok1 && ok2 && ok3 && ok4) {
-				r.Fail("worker/done-cleanup-order", key, p.posStr(lit.Pos()), "expected exactly one each of: worker function call, WaitGroup.Done, cleanupWorker, running.Store(false)")
+				r.Fail("worker/done-cleanup-order", key, p.posStr(lit.pos), "expected exactly one each of: worker function call, WaitGroup.Done, cleanupWorker, running.Store(false)")
 			} else {
 				order := []Point{run, done, clean, clr}
 				names := []string{"worker function", "Done", "cleanupWorker", "running=false"}
@@ -419,9 +462,9 @@ func runC20(c *Ctx) {
 					bad = "the goroutine can end without Done"
 				}
 				if bad != "" {
-					r.Fail("worker/done-cleanup-order", key, p.posStr(lit.Pos()), bad)
+					r.Fail("worker/done-cleanup-order", key, p.posStr(lit.pos), bad)
 				} else {
-					r.Pass("worker/done-cleanup-order", key, p.posStr(lit.Pos()), "worker function, then Done, then cleanupWorker, then running=false")
+					r.Pass("worker/done-cleanup-order", key, p.posStr(lit.pos), "worker function, then Done, then cleanupWorker, then running=false")
 				}
 			}
 		}
